@@ -1,17 +1,18 @@
 #!/bin/bash
-# Confirms one sub-agent change independently in its scratch worktree:
+# Confirms one sub-agent change independently in a scratch worktree:
 #   suite passes with the patch, demo fails with it, demo passes without it.
-#   tools/confirm_seeded.sh <ID> <k> [extra cargo test args for the demo]
-ID=$1; K=$2; shift 2; EXTRA="$*"
-WT=/tmp/wt-$ID; OUT=/tmp/out-$ID/change$K
+#   tools/confirm_seeded.sh <worktree> <change-dir> [extra cargo test args for a demo.rs]
+# FLAGS for a demo.rs are read from a "FLAGS:" line in notes.md unless given.
+WT=$1; OUT=$2; shift 2; EXTRA="$*"
+if [ -z "$EXTRA" ] && [ -f $OUT/notes.md ]; then EXTRA=$(grep -m1 -o 'FLAGS: *`\?[^`]*' $OUT/notes.md | sed 's/FLAGS: *`\?//'); fi
 export CARGO_TARGET_DIR=$WT/target CARGO_NET_OFFLINE=true
 cd $WT || exit 2
 git checkout -q -- . ; git clean -fdq -e target
-git apply $OUT/patch.diff || { echo "RESULT $ID/$K patch does not apply"; exit 1; }
+git apply $OUT/patch.diff || { echo "RESULT $OUT patch does not apply"; exit 1; }
 if cargo test --workspace --no-fail-fast --offline > $OUT/confirm_suite.log 2>&1; then SUITE=pass; else SUITE=FAIL; fi
 run_demo() {
   if [ -f $OUT/demo.sh ]; then bash $OUT/demo.sh $WT > $OUT/confirm_demo_$1.log 2>&1; return $?; fi
-  local f=$(ls $OUT/*.rs | head -1); local name=seeded_demo_${ID}_$K
+  local f=$(ls $OUT/*.rs | head -1); local name=seeded_demo_$$
   cp $f rcgen/tests/$name.rs
   cargo test -p rcgen --test $name --offline $EXTRA > $OUT/confirm_demo_$1.log 2>&1; local rc=$?
   rm -f rcgen/tests/$name.rs; return $rc
@@ -20,4 +21,4 @@ run_demo with; WITH=$?
 git checkout -q -- . ; git clean -fdq -e target
 run_demo without; WITHOUT=$?
 git checkout -q -- . ; git clean -fdq -e target
-echo "RESULT $ID/$K suite_with_patch=$SUITE demo_with_patch_rc=$WITH demo_without_patch_rc=$WITHOUT"
+echo "RESULT $OUT flags='$EXTRA' suite_with_patch=$SUITE demo_with_patch_rc=$WITH demo_without_patch_rc=$WITHOUT"
